@@ -49,6 +49,8 @@ long mc_arg_int(const char *key, long dflt);
 int mc_in_child(void);
 /* per-execution scratch id (worker index), for scratch file names */
 int mc_worker_id(void);
+/* per-worker scratch directory on tmpfs (created on demand, removed when the worker exits) */
+const char *mc_scratch(void);
 
 /* hash helpers */
 uint64_t mc_hash_bytes(uint64_t h, const void *p, size_t n);
